@@ -141,6 +141,26 @@ let parse_tx () =
   else
     `Derived { xtx_sys = sys; xtx_vetoes = vetoes; xtx_ops = xops; xtx_precommit_fails = pcf }
 
+(* C07: the pseudo veto "@c07hk" asks for the executions of the hooks the C07 harness registers (Store/TxQuiet.v
+   std_hooks: store-level listeners of every style, tx-complete listeners), per kind, as HK:<kind>:<n> tokens (n > 0) *)
+let tx_veto_list = function
+  | `Plain t -> t.tx_vetoes | `Derived t -> t.xtx_vetoes | `Linked t -> t.ltx_vetoes | `Ctx (_, vetoes, _) -> vetoes
+let wants_hook_counts t = List.exists (fun ((s, _), _) -> string_of_name s = "@c07hk") (tx_veto_list t)
+let hk_kind (l : listener) : string =
+  let letter = (match l.l_style with
+    | LTyped -> "t" | LFunction -> "f" | LUntyped -> "u" | LIdOnly -> "i" | LConstraint -> "c" | LUntypedConstraint -> "uc") in
+  match l.l_style, l.l_types with
+  | (LConstraint | LUntypedConstraint), _ -> letter
+  | _, [ty] -> letter ^ (if et_is_async ty then "a" else "s")
+  | _, _ -> "m" ^ letter
+let hook_tokens sch committed evs : string list =
+  let (per, tc) = hook_counts (std_hooks sch) committed evs in
+  let tbl = Hashtbl.create 16 in
+  List.iter (fun (l, n) -> let k = hk_kind l in
+    Hashtbl.replace tbl k (int_of_nat n + (try Hashtbl.find tbl k with Not_found -> 0))) per;
+  Hashtbl.replace tbl "tc" (int_of_nat tc);
+  List.sort compare (Hashtbl.fold (fun k n acc -> if n > 0 then Printf.sprintf "HK:%s:%d" k n :: acc else acc) tbl [])
+
 let fval_str = function
   | FAbsent -> "absent" | FNil -> "nil" | FStr s -> "s" ^ hex_of_bytes s | FBool b -> if b then "b1" else "b0"
 
@@ -214,6 +234,8 @@ let () =
         (* the bools the single-link operations observed: LB:<operation index>:<b>,<b>.. *)
         List.iteri (fun k bs -> if bs <> [] then
           Buffer.add_string buf (Printf.sprintf " LB:%d:%s" k (String.concat "," (List.map (fun b -> if b then "1" else "0") bs)))) bss;
+        if wants_hook_counts t then
+          List.iter (fun tok -> Buffer.add_char buf ' '; Buffer.add_string buf tok) (hook_tokens sch committed evs);
         List.iter (fun d ->
           let nm = string_of_name d.sd_name in
           let pr tag l = Buffer.add_string buf (Printf.sprintf " %s:%s:%s" tag nm (String.concat "," (List.map hex_of_bytes l))) in
